@@ -59,7 +59,7 @@ ASSUMPTIONS = [
 ]
 FLOORS = {"step:defaults": 0.02, "step:values": 0.05, "nondefault": 0.04, "form:enum_name": 0.005, "form:bitfields": 0.025}
 
-BUDGET = {"quick": 240.0}  # 1100 enumerated tuples plus three full assignments per specification class
+BUDGET = {"quick": 360.0}  # 1100 enumerated tuples plus three full assignments per specification class
 AREAS = ("pfr", "ifr", "bca", "fcf", "fcb", "xmcd", "tz", "fuses", "memcfg")
 _PFR_SIZES = {"cmpa": 512, "cfpa": 512}
 _FILL = {"pfr": 0x00, "ifr": 0xFF}
